@@ -108,31 +108,16 @@ func classifyPanic(r *Run, p interface{}, stack string) {
 		_ = h
 		return
 	}
-	// first frame that is not runtime / testing: whose code blew up?
-	top := ""
-	lines := strings.Split(stack, "\n")
-	for _, l := range lines {
-		l = strings.TrimSpace(l)
-		if l == "" || strings.HasPrefix(l, "/") || strings.HasPrefix(l, "goroutine ") {
-			continue
-		}
-		if strings.HasPrefix(l, "runtime") || strings.HasPrefix(l, "panic(") || strings.HasPrefix(l, "testing") ||
-			strings.Contains(l, "simkit.ExecPlan") || strings.Contains(l, "simkit.classifyPanic") || strings.HasPrefix(l, "internal/") {
-			continue
-		}
-		top = l
-		break
-	}
+	// first frame that is not runtime / testing: whose code blew up? Decided by the SOURCE FILE of
+	// that frame (function names of inlined closures carry the caller's package)
+	top, file := TopFrame(stack)
 	fn := top
-	if i := strings.Index(fn, "("); i > 0 && !strings.HasPrefix(fn, "github.com/chrislusf/seaweedfs/weed/") {
+	if i := strings.Index(fn, "("); i > 0 {
 		fn = fn[:i]
 	}
-	if strings.HasPrefix(top, "github.com/chrislusf/seaweedfs/") {
-		fn = strings.TrimPrefix(top, "github.com/chrislusf/seaweedfs/")
-		if i := strings.LastIndex(fn, "("); i > 0 {
-			fn = fn[:i]
-		}
-		r.Violate("sut-panic", fn, "panic in SUT code: %s", msg)
+	if IsSUTFile(file) {
+		key := SUTFrameKey(top, file)
+		r.Violate("sut-panic", key, "panic in SUT code (%s): %s", file, msg)
 		r.Log("STACK %s", firstLines(stack, 30))
 		return
 	}
@@ -145,6 +130,59 @@ func firstLines(s string, n int) string {
 		parts = parts[:n]
 	}
 	return strings.Join(parts, "\n")
+}
+
+// Reclassify is for engines that recover panics themselves: it attributes the panic from the stack
+// taken INSIDE the recovering deferred function (which still shows the panicking frames) and ends the run.
+func Reclassify(r *Run, p interface{}, stack string) {
+	classifyPanic(r, p, stack)
+	Abort()
+}
+
+// TopFrame returns the function line and the file line of the first frame of a Go stack trace that
+// belongs neither to the runtime, the testing package nor this kit's own recovery code.
+func TopFrame(stack string) (fn, file string) {
+	lines := strings.Split(stack, "\n")
+	for i := 0; i < len(lines); i++ {
+		l := strings.TrimSpace(lines[i])
+		if l == "" || strings.HasPrefix(l, "/") || strings.HasPrefix(l, "goroutine ") || strings.HasPrefix(l, "[") || strings.HasPrefix(l, "created by ") {
+			continue
+		}
+		if strings.HasPrefix(l, "runtime") || strings.HasPrefix(l, "panic(") || strings.HasPrefix(l, "testing") || strings.HasPrefix(l, "internal/") ||
+			strings.Contains(l, "simkit.ExecPlan") || strings.Contains(l, "simkit.classifyPanic") || strings.Contains(l, "simkit.Reclassify") ||
+			(strings.HasPrefix(l, "verifsim/") && strings.Contains(l, ").sut.func")) {
+			continue
+		}
+		f := ""
+		if i+1 < len(lines) {
+			f = strings.TrimSpace(lines[i+1])
+			if j := strings.LastIndex(f, ":"); j > 0 {
+				f = f[:j]
+			}
+		}
+		return l, f
+	}
+	return "", ""
+}
+
+// IsSUTFile: repository source, not a hook or a harness shim compiled into a repository package.
+func IsSUTFile(file string) bool {
+	if !strings.HasPrefix(file, "/repo/weed/") {
+		return false
+	}
+	base := file[strings.LastIndex(file, "/")+1:]
+	return !strings.Contains(base, "verif") && !strings.HasPrefix(file, "/repo/weed/verif/")
+}
+
+// SUTFrameKey names a panicking repository frame without line numbers.
+func SUTFrameKey(fn, file string) string {
+	if i := strings.LastIndex(fn, "("); i > 0 {
+		fn = fn[:i]
+	}
+	if i := strings.LastIndex(fn, "/"); i >= 0 {
+		fn = fn[i+1:]
+	}
+	return strings.TrimPrefix(file, "/repo/") + ":" + fn
 }
 
 type harnessAbort struct{}
